@@ -9,6 +9,46 @@ import (
 	"golang.org/x/tools/go/ssa"
 )
 
+type heapDesc struct {
+	kind string // field, elem, ptr, maphas, mapval, global
+	t1   types.Type
+	t2   types.Type
+}
+
+func (eng *Engine) noteHeap(name, kind string, t1, t2 types.Type) {
+	if _, ok := eng.heapDescs[name]; !ok {
+		eng.heapDescs[name] = heapDesc{kind, t1, t2}
+	}
+}
+
+// sortForHeap gives the SMT sort of a heap known to the engine by name (declaring datatypes in vc as needed).
+func (vc *VC) sortForHeap(name string) (string, bool) {
+	if s, ok := vc.heapSort[name]; ok {
+		return s, true
+	}
+	switch name {
+	case "alloc", "#chan.closed":
+		return allocSort, true
+	}
+	d, ok := vc.eng.heapDescs[name]
+	if !ok {
+		return "", false
+	}
+	switch d.kind {
+	case "field", "ptr":
+		return "(Array Int " + vc.sortOf(d.t1) + ")", true
+	case "elem":
+		return "(Array Int (Array Int " + vc.sortOf(d.t1) + "))", true
+	case "maphas":
+		return "(Array Int (Array " + vc.sortOf(d.t1) + " Bool))", true
+	case "mapval":
+		return "(Array Int (Array " + vc.sortOf(d.t1) + " " + vc.sortOf(d.t2) + "))", true
+	case "global":
+		return vc.sortOf(d.t1), true
+	}
+	return "", false
+}
+
 func (eng *Engine) structLeafHeaps(t types.Type, out map[string]bool) {
 	st, ok := t.Underlying().(*types.Struct)
 	if !ok {
@@ -20,7 +60,17 @@ func (eng *Engine) structLeafHeaps(t types.Type, out map[string]bool) {
 			eng.structLeafHeaps(ft, out)
 		} else {
 			out[fieldHeapName(t, i)] = true
+			eng.noteHeap(fieldHeapName(t, i), "field", ft, nil)
 		}
+	}
+}
+
+func (eng *Engine) mapHeapsEff(mt *types.Map, out map[string]bool, both bool) {
+	out[mapHasHeap(mt)] = true
+	eng.noteHeap(mapHasHeap(mt), "maphas", mt.Key(), nil)
+	eng.noteHeap(mapValHeap(mt), "mapval", mt.Key(), mt.Elem())
+	if both {
+		out[mapValHeap(mt)] = true
 	}
 }
 
@@ -31,6 +81,7 @@ func (eng *Engine) cellHeaps(t types.Type, out map[string]bool) {
 		return
 	}
 	out[ptrHeapName(t)] = true
+	eng.noteHeap(ptrHeapName(t), "ptr", t, nil)
 }
 
 func (eng *Engine) elemHeaps(et types.Type, out map[string]bool) {
@@ -39,6 +90,7 @@ func (eng *Engine) elemHeaps(et types.Type, out map[string]bool) {
 		return
 	}
 	out[elemHeapName(et)] = true
+	eng.noteHeap(elemHeapName(et), "elem", et, nil)
 }
 
 func (eng *Engine) storeEffects(addr ssa.Value, out map[string]bool) {
@@ -51,6 +103,7 @@ func (eng *Engine) storeEffects(addr ssa.Value, out map[string]bool) {
 			eng.structLeafHeaps(ft, out)
 		} else {
 			out[fieldHeapName(st, a.Field)] = true
+			eng.noteHeap(fieldHeapName(st, a.Field), "field", ft, nil)
 		}
 	case *ssa.IndexAddr:
 		eng.elemHeaps(elemTypeOf(a.X.Type()), out)
@@ -59,6 +112,7 @@ func (eng *Engine) storeEffects(addr ssa.Value, out map[string]bool) {
 			eng.structLeafHeaps(t, out)
 		} else {
 			out[globalHeapName(a)] = true
+			eng.noteHeap(globalHeapName(a), "global", t, nil)
 		}
 	default:
 		eng.cellHeaps(t, out)
@@ -74,6 +128,7 @@ func (eng *Engine) allocEffects(t types.Type, out map[string]bool) {
 		eng.elemHeaps(u.Elem(), out)
 	default:
 		out[ptrHeapName(t)] = true
+		eng.noteHeap(ptrHeapName(t), "ptr", t, nil)
 	}
 }
 
@@ -83,9 +138,7 @@ func (eng *Engine) instrEffects(ins ssa.Instruction, out map[string]bool, in *ss
 	case *ssa.Store:
 		eng.storeEffects(x.Addr, out)
 	case *ssa.MapUpdate:
-		mt := x.Map.Type().Underlying().(*types.Map)
-		out[mapHasHeap(mt)] = true
-		out[mapValHeap(mt)] = true
+		eng.mapHeapsEff(x.Map.Type().Underlying().(*types.Map), out, true)
 	case *ssa.Alloc:
 		eng.allocEffects(deref(x.Type()), out)
 	case *ssa.MakeSlice:
@@ -93,8 +146,7 @@ func (eng *Engine) instrEffects(ins ssa.Instruction, out map[string]bool, in *ss
 		eng.elemHeaps(x.Type().Underlying().(*types.Slice).Elem(), out)
 	case *ssa.MakeMap:
 		out["alloc"] = true
-		mt := x.Type().Underlying().(*types.Map)
-		out[mapHasHeap(mt)] = true
+		eng.mapHeapsEff(x.Type().Underlying().(*types.Map), out, false)
 	case *ssa.MakeChan:
 		out["alloc"] = true
 	case *ssa.MakeInterface:
@@ -140,8 +192,7 @@ func (eng *Engine) callEffects(c *ssa.CallCommon, out map[string]bool, in *ssa.F
 		case "copy":
 			eng.elemHeaps(elemTypeOf(c.Args[0].Type()), out)
 		case "delete":
-			mt := c.Args[0].Type().Underlying().(*types.Map)
-			out[mapHasHeap(mt)] = true
+			eng.mapHeapsEff(c.Args[0].Type().Underlying().(*types.Map), out, false)
 		case "close":
 			out["#chan.closed"] = true
 		}
@@ -287,15 +338,14 @@ func (eng *Engine) reachEffects(t types.Type, out map[string]bool, seen map[stri
 				eng.reachEffects(st.Field(i).Type(), out, seen, depth+1)
 			}
 		} else {
-			out[ptrHeapName(et)] = true
+			eng.cellHeaps(et, out)
 			eng.reachEffects(et, out, seen, depth+1)
 		}
 	case *types.Slice:
 		eng.elemHeaps(u.Elem(), out)
 		eng.reachEffects(u.Elem(), out, seen, depth+1)
 	case *types.Map:
-		out[mapHasHeap(u)] = true
-		out[mapValHeap(u)] = true
+		eng.mapHeapsEff(u, out, true)
 		eng.reachEffects(u.Elem(), out, seen, depth+1)
 	case *types.Struct:
 		for i := 0; i < u.NumFields(); i++ {
@@ -363,6 +413,16 @@ func (eng *Engine) contractEffects(ct *Contract, fn *ssa.Function, sig *types.Si
 		}
 	}
 	out["alloc"] = true
+	// writes to objects allocated during the call happen in heaps the clause need not list
+	if fn != nil && len(fn.Blocks) > 0 && eng.inModule(fn) && !out["*"] && !eng.effBusy[fn] {
+		eng.effBusy[fn] = true
+		for h := range eng.bodyEffects(fn) {
+			if h != "*" {
+				out[h] = true
+			}
+		}
+		delete(eng.effBusy, fn)
+	}
 	return out
 }
 
@@ -477,8 +537,7 @@ func (eng *Engine) modItemHeaps(it ModItem, names []string, ts []types.Type, pkg
 		case *types.Slice:
 			eng.elemHeaps(u.Elem(), out)
 		case *types.Map:
-			out[mapHasHeap(u)] = true
-			out[mapValHeap(u)] = true
+			eng.mapHeapsEff(u, out, true)
 		default:
 			out["*"] = true
 		}
@@ -500,6 +559,7 @@ func (eng *Engine) modItemHeaps(it ModItem, names []string, ts []types.Type, pkg
 					eng.structLeafHeaps(ft, out)
 				} else {
 					out[fieldHeapName(cur, i)] = true
+					eng.noteHeap(fieldHeapName(cur, i), "field", ft, nil)
 				}
 			}
 			cur = ft
